@@ -21,6 +21,7 @@ G: one REPLAY line per abstract event with the predicted abstract records; the h
 """
 import json
 import os
+import shutil
 
 import vlib
 
@@ -90,6 +91,8 @@ def run(ctx):
                     timeout=3000, env={"VERIF_LONG": "4096" if ctx.quick else "65536",
                          "VERIF_PASSES": "1" if (ctx.quick or rc is not None) else "6"})
     rep = json.load(open(rep_path))
+    if not any(k.startswith("file") or "file" in k.split("|")[0] for k in rep["extra"].get("mismatch_categories", {})):
+        shutil.rmtree(os.path.join(ctx.out, "files"), ignore_errors=True)   # large with 64 KiB strings
     ctx.cov["traces_validated_against_impl"] += rep["extra"]["sinks_decided"]
     ctx.cov["evaluations"] = rep["extra"]["sinks_decided"]
     ctx.cov["distinct_nontrivial"] = len(distinct)
